@@ -178,6 +178,7 @@ def check(ctx, report):
             report.undecided.append('C01.R10: the client hello left the subset the tabulation understands (C05.R3 reads its shape)')
     equality(ctx, report)
     clock_defaults(ctx, report)
+    flag_keyed_optionals(ctx, report)
     if 'SslRecord' in reviewed and reviewed['SslRecord'].get('strip_header'):
         # the header left out of the element-wise comparison above
         from .c06 import ssl2_header
@@ -564,3 +565,58 @@ def clock_defaults(ctx, report, RULE='C01.R11'):
         except (Unsupported, Raised) as e:
             report.add(RULE, '%s@default[%s]' % (c.construct, fld.name), 'default / compose / parse of %s left the subset the evaluation understands: %s' % (c.name, e))
     report.floor(RULE, 1, 'defaults that read the clock')
+
+
+# ---- R12: optional parts keyed on a flag -----------------------------------------------------------------------------------
+
+def flag_keyed_optionals(ctx, report, RULE='C01.R12', only=None):
+    """an optional part of a message that one side reads / writes when a flag (an enum member in a flag set field) is set has to
+    be keyed on the same flag on the other side.  A side that keys it on something else (the presence of the value itself)
+    composes objects the parser cannot read - the value is set, the flag is not - and reads messages into objects that differ
+    from what was composed - the flag is set, the value is absent."""
+    from ..core import representatives
+    from ..model import EnumMember
+    from ..values import FieldV, SelfV, Sym, show
+    report.rule(RULE, 'an optional part keyed on a flag by one side is keyed on the same flag by the other side')
+
+    def members(v, out):
+        if isinstance(v, Sym):
+            for a in v.args:
+                members(a, out)
+        elif isinstance(v, (FieldV, SelfV)):
+            out.append(v)
+
+    def flag_sig(v):
+        """(enum member, negated) for ``MEMBER in <expression over one flag set field>`` / its negation, else None"""
+        neg = False
+        while isinstance(v, Sym) and v.op == 'not':
+            v, neg = v.args[0], not neg
+        if isinstance(v, Sym) and v.op == 'cmp' and v.args[0] in ('in', 'not in') and isinstance(v.args[1], EnumMember):
+            if v.args[0] == 'not in':
+                neg = not neg
+            return ('%s.%s' % (v.args[1].cls.name, v.args[1].name), neg)
+        return None
+    for c in representatives(ctx, '_parse'):
+        if only is not None and c.name not in only:
+            continue
+        try:
+            pe, ce = ctx.canon.canon(c, 'parse').elements, ctx.canon.canon(c, 'compose').elements
+        except Exception:      # pylint: disable=broad-except
+            continue
+        if len(pe) != len(ce):
+            continue        # a different element sequence is C01.R1's finding
+        for i, (a, b) in enumerate(zip(pe, ce)):
+            if a.kind != 'alt' or b.kind != 'alt' or a.val is None or b.val is None:
+                continue
+            sa_, sb_ = flag_sig(a.val), flag_sig(b.val)
+            if sa_ is None and sb_ is None:
+                continue
+            report.count(RULE)
+            if sa_ == sb_:
+                continue
+            what = (a.a or a.b or [a])[0]
+            name = getattr(what, 'key', None) or what.sig()
+            report.add(RULE, '%s@optional[%s]' % (c.construct, name),
+                       'the parser reads %s when `%s`, the composer writes it when `%s`: an object (or a message) on which the two conditions differ '
+                       'does not survive the round trip' % (name, show(a.val)[:90], show(b.val)[:90]))
+    report.floor(RULE, 2, 'flag keyed optional parts')
